@@ -11,7 +11,7 @@ RULE = ('Hypothesis generates DAG case specs (1-10 nodes over types with max_par
         'dependencies of other requested nodes; max_workers; pre-cached subset; bust_cache; context; completion '
         'schedule) and runs each under the schedule-controlling in-process Runner, and sampled ones under the real '
         'serial / fork / spawn backends in processes with different hash seeds. Engine "two-runs": a second run_tasks call on the '
-        'SAME task objects (same Lab object or a new Lab on the same storage) with another nonce, with/without bust_cache. Engine "fork+gated+displays": 11-15 gated tasks inside run() at once with progress bars and task monitor shown. Engine "scale": 130-220 leaves gathered by one or two readers followed by a chain of dependents (serial, fork, controlled). Engine "twins": some nodes get a twin of an inheriting task type with exactly the same field '
+        'SAME task objects (same Lab object or a new Lab on the same storage) with another nonce, with/without bust_cache. Engine "fork+gated+displays": 3-15 gated tasks inside run() at once with progress bars and task monitor shown under generated top_sort / top_n / top_format options. Engine "scale": 130-220 leaves gathered by one or two readers followed by a chain of dependents (serial, fork, controlled). Engine "twins": some nodes get a twin of an inheriting task type with exactly the same field '
         'values (two tasks that differ only in their type), both read by one dependent. Oracle: returned keys == request '
         'list de-duplicated in order, each value == reference sequential evaluator. Non-trivial = closure of >= 3 '
         'nodes and at least one of: shared dependency, duplicate equal instance, dependency nested at container '
@@ -54,14 +54,14 @@ def wide_displays_spec():
 
     @st.composite
     def gen(draw):
-        n = draw(st.integers(11, 15))
+        n = draw(st.sampled_from([12, 5, 11, 3, 13, 15]))      # below and above the monitor's default top_n of 10
         nodes = [{'id': i, 'type': draw(st.sampled_from(['NN', 'Z', 'N'])), 'name': f'n{i}', 'mode': 'ok', 'read': True, 'payload': i, 'deps': {'s': None}}
                  for i in range(n)]
         if draw(st.booleans()):
             nodes.append({'id': n, 'type': 'NN', 'name': f'n{n}', 'mode': 'ok', 'read': True, 'payload': None,
                           'deps': {'list': [{'ref': j, 'fresh': False} for j in range(0, n, 3)]}})
         lab = {'backend': 'fork', 'max_workers': draw(st.sampled_from([n, n + 2])), 'continue_on_failure': True, 'bust_cache': False,
-               'storage': draw(st.sampled_from(['local', 'none'])), 'displays': True, 'context': {}}
+               'storage': draw(st.sampled_from(['local', 'none'])), 'displays': True, 'context': {}, 'top': draw(dagrun.top_strategy(dense=True))}
         return {'nodes': nodes, 'requested': [{'ref': i, 'fresh': False} for i in range(len(nodes))], 'lab': lab, 'pre_cached': [],
                 'schedule': draw(st.lists(st.integers(0, 7), max_size=12)), 'wide_displays': True}
     return gen()
@@ -72,7 +72,7 @@ def check_wide(spec: dict) -> core.CaseResult:
     ex = oracles.expect_for(spec, obs)
     findings = oracles.c01_return_value(spec, obs, ex)
     most = max([len(e[1]) for e in obs.events if e[0] == 'rest'] or [0])
-    return dagprop.result(obs, findings, most > 10, ['backend=fork', 'displays_on', f'most_tasks_inside_run_at_rest={min(most, 16)}'], prop='C01')
+    return dagprop.result(obs, findings, most >= 3, ['backend=fork', 'displays_on', f'top_sort={(spec["lab"].get("top") or {}).get("sort")}', f'most_tasks_inside_run_at_rest={min(most, 16)}'], prop='C01')
 
 
 def judge_obs(case: dict, obs) -> core.CaseResult:
@@ -113,7 +113,7 @@ def plan(tier: str) -> list[dict]:
     jobs.append({'engine': 'twins:controlled', 'n': 100 if q else 2500, 'hashseed': 0})
     jobs.append({'engine': 'twins:serial', 'n': 40 if q else 1000, 'hashseed': 1})
     jobs.append({'engine': 'twins:fork', 'n': 10 if q else 300, 'hashseed': 2})
-    jobs.append({'engine': 'fork+gated+displays', 'n': 3 if q else 60, 'hashseed': 6})
+    jobs.append({'engine': 'fork+gated+displays', 'n': 8 if q else 80, 'hashseed': 6})
     jobs.append({'engine': 'scale:fork', 'n': 2 if q else 40, 'hashseed': 3})
     jobs.append({'engine': 'scale:serial', 'n': 1 if q else 20, 'hashseed': 4})
     jobs.append({'engine': 'scale:controlled', 'n': 2 if q else 40, 'hashseed': 5})
